@@ -26,6 +26,13 @@ var (
 )
 
 func getNumOfThingsFromInstr(instr opcode.Opcode, param []byte) (int, bool) {
+	// Standard contracts push the number with the shortest instruction (see
+	// emit.Int), wider ones are not needed for numbers up to MaxMultisigKeys,
+	// they are priced differently and are not accepted by the reference
+	// implementation.
+	if instr != opcode.PUSHINT8 && instr != opcode.PUSHINT16 && (instr < opcode.PUSH1 || instr > opcode.PUSH16) {
+		return 0, false
+	}
 	nthings, err := GetInt64FromInstr(Instruction{Op: instr, Param: param})
 	if err != nil {
 		return 0, false
